@@ -4,15 +4,33 @@
 EXTENDS RenderStatus, Json
 
 CONSTANT HistLen
-VARIABLE hist
+VARIABLES hist, acted, nadmin      \* see WorkQSim.tla
+Actor(l) == IF l.op \in {"pull", "finish", "disconnect"} THEN {l.w}
+            ELSE IF l.op = "connect" THEN {l.w, "svc"}
+            ELSE IF l.op = "wait" THEN {l.c}
+            ELSE IF l.op = "kill" /\ l.k # "admin" THEN {l.k}
+            ELSE IF l.op \in {"tick", "watchdog"} THEN {"svc"}
+            ELSE {}
+IsAdmin(l) == l.op \in {"add", "setinfo", "drop"} \/ (l.op = "kill" /\ l.k = "admin")
+LoopRan(l) == l.op \in {"drained", "restart", "runloop0"}
 
 Proj == [count |-> count, jobs |-> job, bound |-> id2job, heaps |-> heap, waiters |-> waiter,
          running |-> running, stats |-> stats, now |-> now, fwait |-> fwait, conn |-> conn, wake |-> wake,
          status |-> [w \in Writers |-> Status(w)]]
 
-SimInit == Init /\ hist = <<>>
-SimNext == Next /\ hist' = Append(hist, [last |-> last', st |-> Proj'])
-SimSpec == SimInit /\ [][SimNext]_<<vars, hist>>
+SimInit == Init /\ hist = <<>> /\ acted = {} /\ nadmin = 0
+IdleLoop ==
+  /\ ~draining /\ wake = <<>> /\ (acted # {} \/ nadmin > 0)
+  /\ last' = [op |-> "runloop0"]
+  /\ UNCHANGED <<count, job, id2job, heap, waiter, conn, running, wake, now, stats, fwait, draining>>
+SimNext ==
+  /\ (Next \/ IdleLoop)
+  /\ Actor(last') \cap acted = {}
+  /\ IsAdmin(last') => nadmin < 10
+  /\ acted' = IF LoopRan(last') THEN {} ELSE acted \cup Actor(last')
+  /\ nadmin' = IF LoopRan(last') THEN 0 ELSE IF IsAdmin(last') THEN nadmin + 1 ELSE nadmin
+  /\ hist' = Append(hist, [last |-> last', st |-> Proj'])
+SimSpec == SimInit /\ [][SimNext]_<<vars, hist, acted, nadmin>>
 
 EmitHist == (Len(hist) = HistLen) => PrintT("@@" \o ToJson(hist))
 StopAtLen == Len(hist) <= HistLen
